@@ -96,6 +96,50 @@ func (env *SpecEnv) with(cur *State) *SpecEnv {
 	return &n
 }
 
+// localAddr: the address of a struct-typed local variable that lives in memory (its address is
+// taken somewhere), so that specifications can apply pointer-receiver predicates to it.
+func (env *SpecEnv) localAddr(name string) *Ref {
+	fr := env.fr
+	at := env.at
+	if fr == nil || at == nil || env.inOld {
+		return nil
+	}
+	var best *ssa.DebugRef
+	for _, b := range fr.fn.Blocks {
+		if !(b.Dominates(at)) || (b == at && !env.atEnd) {
+			continue
+		}
+		for _, in := range b.Instrs {
+			d, ok := in.(*ssa.DebugRef)
+			if !ok || !d.IsAddr {
+				continue
+			}
+			v, isVar := d.Object().(*types.Var)
+			if !isVar || v.Name() != name || v.IsField() {
+				continue
+			}
+			if _, have := fr.vals[d.X]; !have {
+				continue
+			}
+			if best == nil || best.Block().Dominates(b) {
+				best = d
+			}
+		}
+	}
+	if best == nil {
+		return nil
+	}
+	t := derefType(best.X.Type())
+	if t == nil || kindOf(t) != KStruct {
+		return nil
+	}
+	if _, isArr := t.Underlying().(*types.Array); isArr {
+		return nil
+	}
+	v := env.e.val(fr, env.cur, best.X)
+	return &Ref{v.term(), t, ""}
+}
+
 func (env *SpecEnv) lookupLocal(name string) *Val {
 	fr := env.fr
 	if fr == nil {
@@ -890,6 +934,9 @@ func (env *SpecEnv) refOrNil(x *SExpr) *Ref {
 		}
 		if _, isV := env.vars[x.Name]; isV {
 			return nil
+		}
+		if r := env.localAddr(x.Name); r != nil {
+			return r
 		}
 		if env.lookupLocal(x.Name) != nil {
 			return nil
